@@ -264,9 +264,11 @@ def universe_unit(rep):
         # one universe object per entry map, asked again and again (TLC's order, then every third query once more)
         key = tuple(ent)
         if key not in shared:
-            shared[key] = (DynamicUniverse(dict((names[i], (None if e == -1 else ts(base + e))) for i, e in enumerate(ent))), [])
+            # (entry dates and query instants are also expressed in other time zones: the comparison is between instants)
+            zone = lambda k: ["UTC", "Asia/Tokyo", "America/New_York", "Europe/Berlin"][(k + len(shared)) % 4]
+            shared[key] = (DynamicUniverse(dict((names[i], (None if e == -1 else ts(base + e).tz_convert(zone(i)))) for i, e in enumerate(ent))), [])
         uni, asked = shared[key]
-        got = uni.get_assets(ts(base + t))
+        got = uni.get_assets(ts(base + t).tz_convert(["UTC", "Europe/Berlin", "Asia/Tokyo"][t % 3]))
         asked.append((t, exp))
         if len(asked) % 3 == 0:
             t_old, exp_old = asked[len(asked) // 3 - 1]
